@@ -16,3 +16,41 @@ let register () =
   Drv.register "c01.nsclone" (fun args -> match args with
     | [o; l; bs] -> show_ops (Clone.ns_clone_ops (n_of_string o) (n_of_string l) (n_of_string bs))
     | _ -> "ERR args")
+
+(* ---- sequencer ---- *)
+let split c s = Stdlib.String.split_on_char c s
+
+let parse_rows (s : string) : Sequencer.ichunk list =
+  if s = "-" then [] else
+  Stdlib.List.map (fun t -> match split ':' t with
+    | [i; st; sz] -> { Sequencer.c_id = n_of_string i; c_start = n_of_string st; c_size = n_of_string sz }
+    | _ -> failwith "bad row") (split ',' s)
+
+(* F<canReflink><invalid>;rows   or   N<canReflink>;id *)
+let parse_seed (s : string) : Sequencer.seedm =
+  match split ';' s with
+  | [hd; body] when Stdlib.String.length hd = 3 && hd.[0] = 'F' ->
+      Sequencer.SFile ((hd.[1] = '1'), (hd.[2] = '1'), parse_rows body)
+  | [hd; body] when Stdlib.String.length hd = 2 && hd.[0] = 'N' ->
+      Sequencer.SNull ((hd.[1] = '1'), n_of_string body)
+  | _ -> failwith "bad seed"
+
+let show_cand (c : Sequencer.cand) : string =
+  let f = string_of_int (int_of_nat c.Sequencer.cd_first) and l = string_of_int (int_of_nat c.Sequencer.cd_last) in
+  match c.Sequencer.cd_src with
+  | None -> f ^ ":" ^ l ^ ":0:0:0:0:0"
+  | Some (Sequencer.FromFile (k, m) as s) ->
+      let st = match m with [] -> "0" | x :: _ -> string_of_n x.Sequencer.c_start in
+      f ^ ":" ^ l ^ ":1:" ^ string_of_int (int_of_nat k) ^ ":" ^ st ^ ":" ^ string_of_int (Stdlib.List.length m)
+      ^ ":" ^ string_of_n (Sequencer.src_size s)
+  | Some (Sequencer.FromNull (k, a, b) as s) ->
+      f ^ ":" ^ l ^ ":2:" ^ string_of_int (int_of_nat k) ^ ":" ^ string_of_n a ^ ":" ^ string_of_n b
+      ^ ":" ^ string_of_n (Sequencer.src_size s)
+
+let () =
+  (* c01.plan <rows> <seed>* : the plan of SeedSequencer.Plan *)
+  Drv.register "c01.plan" (fun args -> match args with
+    | rows :: seeds ->
+        let p = Sequencer.plan (Stdlib.List.map parse_seed seeds) (parse_rows rows) in
+        if p = [] then "-" else Stdlib.String.concat "," (Stdlib.List.map show_cand p)
+    | _ -> "ERR args")
